@@ -256,7 +256,7 @@ def compare(opname, backend, expected, thunk, rec, feat, case):
 # ------------------------------------------------------------------ arithmetic check
 @st.composite
 def strat_arith(draw, tier):
-    group = draw(st.sampled_from(["bin", "bin", "bin", "inplace", "un", "shift", "powmod", "powmod", "bytes",
+    group = draw(st.sampled_from(["bin", "bin", "bin", "inplace", "un", "un-sqrt", "shift", "powmod", "powmod", "bytes",
                                   "jacobi", "sqrtmod", "misc", "mmb"]))
     c = {"backend": draw(st.sampled_from(BACKENDS)), "group": group, "b_as_int": draw(st.booleans()),
          "alias": False}
@@ -276,9 +276,19 @@ def strat_arith(draw, tier):
         c["a"] = draw(integer(2100))
         c["alias"] = draw(st.integers(0, 3)) == 0
         c["b"] = c["a"] if c["alias"] else draw(st.one_of(integer(2100), st.sampled_from([0, 1, -1])))
-    elif group == "un":
-        c["op"] = draw(st.sampled_from(sorted(UNOPS)))
+    elif group in ("un", "un-sqrt"):
+        c["op"] = draw(st.sampled_from((sorted(UNOPS) + ["sqrt", "is_perfect_square"]) if group == "un" else ["sqrt", "sqrt", "is_perfect_square"]))
+        c["group"] = "un"
         c["a"] = draw(integer())
+        if c["op"] in ("sqrt", "is_perfect_square") and draw(st.integers(0, 3)) != 0:
+            # perfect squares and their neighbours, with the size of the root swept through the widths where a floating-point or
+            # word-sized short cut would stop being exact (24..28, 31..33, 52..54, 63..65 bits) and through every size up to 700 bits
+            rb = draw(st.one_of(st.sampled_from([24, 25, 26, 27, 27, 28, 31, 32, 33, 52, 53, 54, 63, 64, 65, 127, 128]), st.integers(1, 700)))
+            m = draw(st.one_of(st.integers(1 << (rb - 1), (1 << rb) - 1), st.just((1 << rb) - 1), st.just(1 << (rb - 1)),
+                               # squares between 2^52 and 2^53 (still exact as a double, but the double square root of m*m-1 rounds up to m),
+                               # and between 2^63 and 2^64 (last values of a machine word)
+                               st.integers((1 << 26) + 1, 94906265), st.integers(3037000500, (1 << 32) - 1)))
+            c["a"] = max(0, m * m + draw(st.sampled_from([-1, -1, -1, 0, 0, 1, -2, 2 * m, 2 * m + 1, -m])))
     elif group == "shift":
         c["op"] = draw(st.sampled_from(["rshift", "lshift", "irshift", "ilshift", "get_bit"]))
         c["a"] = draw(integer(2100))
